@@ -2403,10 +2403,13 @@ func (p *Parser) gotStmtPipe(s *Stmt, binCmd bool) *Stmt {
 
 func (p *Parser) subshell(s *Stmt) {
 	sub := &Subshell{Lparen: p.pos}
-	old := p.preNested(subCmd)
+	// Only the quote state changes: here-documents still pending on this line
+	// are read at the first newline inside the subshell, as the shells do.
+	oldQuote := p.quote
+	p.quote = subCmd
 	p.next()
 	sub.Stmts, sub.Last = p.followStmts("(", sub.Lparen)
-	p.postNested(old)
+	p.quote = oldQuote
 	sub.Rparen = p.matched(sub.Lparen, leftParen, rightParen)
 	s.Cmd = sub
 }
